@@ -533,6 +533,10 @@ def big_inputs(g, sidp, count):
     yield [reset(f"{sidp}/largetiles"), {"op": "cparse", "b": b}] + [{"op": "cnext"}] * 7
     b = hdr(2, False, 0, 204, 0xffff) + [0] * (262144 - 4)
     yield [reset(f"{sidp}/maxlen"), {"op": "parse", "kind": "app", "b": b}, {"op": "parse", "kind": "packet", "b": b[:70000]}]
+    # a tile with the maximal length field (0xffff) inside a compound, first and non-first
+    yield [reset(f"{sidp}/maxtile"), {"op": "cparse", "b": b}, {"op": "cnext", "tile": [0, 262144]}, {"op": "cnext"},
+           {"op": "cparse", "b": [0x80, 203, 0, 0] + b + [0x81, 203, 0, 1, 0, 0, 0, 7]},
+           {"op": "cnext", "tile": [0, 4]}, {"op": "cnext", "tile": [4, 262144]}, {"op": "cnext", "tile": [262148, 8]}, {"op": "cnext"}]
 
 
 def c01(g, tier):
